@@ -58,4 +58,39 @@ def extract():
     if "load_save" not in calls or "PcfgGrammar" not in calls or len(calls["PcfgGrammar"]) != 1:
         raise ExtractError("pcfg_guesser.main: load_save / PcfgGrammar calls not found as expected")
     C["load_save_before_grammar"] = min(calls["load_save"]) < calls["PcfgGrammar"][0]
+    # --- CrackingSession.run: what does the main loop test to decide to quit?
+    cs = _parse("lib_guesser/cracking_session.py")
+    run = None
+    for n in ast.walk(cs):
+        if isinstance(n, ast.ClassDef) and n.name == "CrackingSession":
+            for m2 in n.body:
+                if isinstance(m2, ast.FunctionDef) and m2.name == "run":
+                    run = m2
+    if run is None:
+        raise ExtractError("CrackingSession.run not found")
+    tests = []
+    for n in ast.walk(run):
+        if isinstance(n, ast.If) and any(isinstance(b, ast.Break) for b in n.body) and \
+                any(isinstance(b, ast.Expr) and isinstance(b.value, ast.Call) and
+                    isinstance(b.value.func, ast.Attribute) and b.value.func.attr == "_save_session" for b in n.body):
+            tests.append(ast.unparse(n.test))
+    if tests == ["not user_thread.is_alive()"]:
+        C["session_polls_quit_flag"] = False
+    elif tests == ["self.pcfg.should_exit"]:
+        C["session_polls_quit_flag"] = True
+    else:
+        raise ExtractError("CrackingSession.run: unexpected quit test(s) %r" % tests)
+    # --- create_prince_wordlist: is the remaining size passed to create_guesses?
+    pl = _func(_parse("lib_princeling/wordlist_generation.py"), "create_prince_wordlist")
+    calls = [n for n in ast.walk(pl) if isinstance(n, ast.Call) and isinstance(n.func, ast.Attribute)
+             and n.func.attr == "create_guesses"]
+    if len(calls) != 1:
+        raise ExtractError("create_prince_wordlist: expected one create_guesses call")
+    kw = {k.arg: ast.unparse(k.value) for k in calls[0].keywords}
+    if "limit" not in kw and len(calls[0].args) == 1:
+        C["prince_passes_remaining_size"] = False
+    elif kw.get("limit", "").replace(" ", "") in ("max_size-num_generated_guesses", "remaining"):
+        C["prince_passes_remaining_size"] = True
+    else:
+        raise ExtractError("create_prince_wordlist: unexpected create_guesses arguments %r" % kw)
     return C
